@@ -553,6 +553,13 @@ func runBatchCheck(bc *BatchCheck, tier string) *evid.Report {
 				}
 			}
 		}
+		for k, set := range cr.Sets {
+			if tn, ok := strings.CutPrefix(k, "interior:"); ok {
+				if cr.Counts["interior-runs:"+tn] >= 2 && len(set) < 2 && it.budget > 0 {
+					cr.Failures = append(cr.Failures, vlib.Failure{Clause: "varies", Sig: "single value inside the draw ranges", Detail: fmt.Sprintf("rand function of %s returned one single value over the %d explored calls whose non-default random answers all lie inside their range (n/3, n/2 of a large range, any value of a small one): real draws fall there almost surely", tn, cr.Counts["interior-runs:"+tn])})
+				}
+			}
+		}
 		if len(cr.Failures) == 0 {
 			r.Outcome("ok")
 		}
